@@ -23,6 +23,21 @@ def depthList : List Val → Nat
   | v :: vs => max v.depth (depthList vs)
 end
 
+mutual
+/-- structural equality test on messages (`Val` is a nested inductive: no derived `DecidableEq`) -/
+def Val.beq : Val → Val → Bool
+  | .int a, .int b => a == b
+  | .str a, .str b => a == b
+  | .list a, .list b => beqList a b
+  | .struct a, .struct b => beqList a b
+  | .dyn p a, .dyn q b => p == q && beqList a b
+  | _, _ => false
+def beqList : List Val → List Val → Bool
+  | [], [] => true
+  | a :: as, b :: bs => a.beq b && beqList as bs
+  | _, _ => false
+end
+
 theorem depth_le_of_mem {v : Val} {vs : List Val} (h : v ∈ vs) : v.depth ≤ depthList vs := by
   induction vs with
   | nil => cases h
